@@ -611,6 +611,9 @@ class Manager:
                 from .helpers import FallBackGenerator
 
                 event_handlers.append(FallBackGenerator()._on_generate_events)
+                # keep descending priority order (stable: the fallback stays
+                # behind every handler of the same or a higher priority)
+                event_handlers.sort(key=attrgetter('priority'), reverse=True)
             elif isinstance(event, exception) and len(event_handlers) == 0:
                 from .helpers import FallBackExceptionHandler
 
